@@ -83,6 +83,29 @@ Definition sitem_okb (s : svstate) (it : sitem) : bool :=
   | VTick _ | VRun _ => true
   end.
 
+(** ** known-finding signatures on the model's own run (ghost) *)
+(** F-OVER: session entries that occupy no capacity (their release happened, their RemoveLock has not) *)
+Definition sv_zombies (s : svstate) : list (str * clock) :=
+  flat_map (λ '(sid, l), omap (λ c, match v_locks s !! cl_name c with
+                                    | Some a => if bool_decide (cl_key c ∈ al_live a) then None else Some (sid, c)
+                                    | None => Some (sid, c) end) l) (sv_sessions s).
+(** F-LEAK: sessions for which an entry was written after their DestroySession deleted them *)
+Definition trace_sids (tr : list sev) : list str :=
+  omap (λ e, match e with SvConnect sid => Some sid | _ => None end) tr.
+Definition leak_sids (s : svstate) : list str := filter (λ sid, add_after_destroy sid (v_trace s) = true) (trace_sids (v_trace s)).
+
+Definition label_of (pc : spc) : nat := spc_label pc.
+Definition byte_to_N := Byte.to_N.
+Definition byte_of_N := Byte.of_N.
+Definition err_name_b (e : err) : list byte := list_byte_of_string (err_go_name e).
+
+Extraction "svmodel.ml" vstep sv_init label_of sv_threads sv_sessions sv_tmkeys sv_timer_nk sv_enabled sv_blocked sv_forced
+  sitem_okb sv_listing sv_table sv_file sv_armed sv_zombies leak_sids byte_to_N byte_of_N err_name_b all_errs sys_base.
+
+(** ** The generator's filter implies the proofs' side condition.
+    These lemmas come AFTER the Extraction command on purpose: if Proofs/SvDefs.v's [sitem_ok] changes and they stop
+    checking, svmodel.ml has been written all the same; ocaml/sv/build.sh records the fact in ocaml/sv/okb_sound.status
+    (lib/svtie.py copies it into the evidence) instead of failing the build of the driver. *)
 Lemma has_connect_sound sid s : has_connect sid s = true ↔ ev_in (SvConnect sid) s.
 Proof.
   unfold has_connect, ev_in. rewrite existsb_exists. split.
@@ -154,21 +177,3 @@ Proof.
   - by apply (neg_true_iff _ _ (has_signal_sound s)).
 Qed.
 
-(** ** known-finding signatures on the model's own run (ghost) *)
-(** F-OVER: session entries that occupy no capacity (their release happened, their RemoveLock has not) *)
-Definition sv_zombies (s : svstate) : list (str * clock) :=
-  flat_map (λ '(sid, l), omap (λ c, match v_locks s !! cl_name c with
-                                    | Some a => if bool_decide (cl_key c ∈ al_live a) then None else Some (sid, c)
-                                    | None => Some (sid, c) end) l) (sv_sessions s).
-(** F-LEAK: sessions for which an entry was written after their DestroySession deleted them *)
-Definition trace_sids (tr : list sev) : list str :=
-  omap (λ e, match e with SvConnect sid => Some sid | _ => None end) tr.
-Definition leak_sids (s : svstate) : list str := filter (λ sid, add_after_destroy sid (v_trace s) = true) (trace_sids (v_trace s)).
-
-Definition label_of (pc : spc) : nat := spc_label pc.
-Definition byte_to_N := Byte.to_N.
-Definition byte_of_N := Byte.of_N.
-Definition err_name_b (e : err) : list byte := list_byte_of_string (err_go_name e).
-
-Extraction "svmodel.ml" vstep sv_init label_of sv_threads sv_sessions sv_tmkeys sv_timer_nk sv_enabled sv_blocked sv_forced
-  sitem_okb sv_listing sv_table sv_file sv_armed sv_zombies leak_sids byte_to_N byte_of_N err_name_b all_errs sys_base.
